@@ -96,7 +96,7 @@ def skipCollect (rules : List Rule) : Nat → Expr → List Str → Option (List
     match e with
     | .choice es =>
       es.foldl (fun acc x => acc.bind fun s => skipCollect rules k x s) (some subs)
-    | .skipUntil ss => some (subs ++ ss)
+    | .skipUntil _ => none                       -- an already-built SkipUntil is not a list of literals (repair cd28459)
     | .str s => some (subs ++ [s])
     | .ident n _ =>
       match rules.find? (·.name == n) with
@@ -147,7 +147,10 @@ def inlineSilent (rules : List Rule) : Expr → Option Expr
   | .ident n tag =>
     match rules.find? (·.name == n) with
     | none => some (.ident n tag)
-    | some r => if hasBit r.mod SILENT && tag.isNone then some r.body else some (.ident n tag)
+    | some r =>
+      -- WHITESPACE / COMMENT run atomically whatever their modifier: never inlined (repair ef95f87)
+      if hasBit r.mod SILENT && tag.isNone && !(r.name == "WHITESPACE" || r.name == "COMMENT") then some r.body
+      else some (.ident n tag)
   | e => some e
 
 /-! ### squash_choice -/
@@ -285,7 +288,7 @@ where
 def isAtomicRule (rules : List Rule) (r : Rule) : Bool :=
   if !(rules.any (·.name == "WHITESPACE")) && !(rules.any (·.name == "COMMENT")) then true
   else hasBit r.mod ATOMIC || hasBit r.mod COMPOUND ||
-       r.name == "WHITESPACE" || r.name == "COMMENT" || r.name == "SKIP"
+       r.name == "WHITESPACE" || r.name == "COMMENT"            -- the name SKIP is not trusted (repair a679cfa)
 
 /-- `_optimize_skip_rule` -/
 def optimizeSkipRule (g : Grammar) (rules : List Rule) : List Rule :=
